@@ -132,6 +132,17 @@ def runScenario (tp : TimeParser τ) (x : Sexp) : String :=
       | _ => [])
     let w0 := initWorld { debug := debug } start decls roots
     let (w, finished) := w0.runFuel (num "fuel" 200000)
+    -- waiters whose condition holds although nobody will wake them any more
+    let w := if w.crashed.isNone && finished then
+        w.acts.toList.foldl (fun (w : World τ) (act : Activity τ) =>
+          if act.status == .suspended then
+            act.frames.foldl (fun (w : World τ) f => match f with
+              | .awaitMark c => if w.eval c then
+                  { w with trace := { time := w.time, turn := w.turn, act := 0, label := act.label, tag := "stuck", args := [] } :: w.trace }
+                else w
+              | _ => w) w
+          else w) w
+      else w
     let trace := ";".intercalate (w.trace.reverse.map showEvent)
     let outcome := match w.crashed with
       | some e => "crash " ++ codeStr (w.exnCode e)
@@ -139,7 +150,12 @@ def runScenario (tp : TimeParser τ) (x : Sexp) : String :=
     -- activities whose own code started but has not ended
     let started (a : Activity τ) : Bool := a.isRoot || a.frames.any (fun f => match f with | .taskPayload _ => true | _ => false)
     let unfinished := (w.acts.toList.filter (fun a => a.status == .suspended && a.label ≥ 0 && started a)).map (·.label)
-    s!"{trace}|{outcome}|{TimeLike.repr w.time}|{codeStr unfinished}"
+    let nUser := num "locks" 0
+    let lockObs := codeStr ((w.locks.toList.take nUser).map (fun l => if l.owner.isNone then 1 else 0))
+    let levelObs := ";".intercalate ((List.range decls.resources.length).filterMap (fun n =>
+      (World.lookup w.resNames n).map (fun rid => codeStr (w.res.getD rid default).levels)))
+    let queueObs := codeStr (w.queues.toList.map (fun q => (q.buffer.length : Int)))
+    s!"{trace}|{outcome}|{TimeLike.repr w.time}|{codeStr unfinished}|locks={lockObs}/levels={levelObs}/queues={queueObs}"
   | _ => "bad-op"
 
 def handle (line : String) : String :=
